@@ -54,7 +54,29 @@ def _ctype_arg(cond):
 _PROG = [None]
 
 
+def _char_of(F, cond):
+    """(symbol, texts): the character a classification test looks at - a char-typed expression (line[i]) or an integer
+    local with one definition that converts such an expression (c = (unsigned char)line[i]); texts = all spellings of it"""
+    from ..bytedom import Sym
+    for x in cond.walk():
+        if x.k in ("ArraySubscriptExpr", "DeclRefExpr") and x.ty.replace("const ", "") in ("char", "unsigned char", "signed char") \
+                and not (x.k == "DeclRefExpr" and x.d.get("g")) and not (x.k == "ArraySubscriptExpr" and x.kids[0].strip(casts=True).d.get("g")):
+            return Sym(text=x.text(), ty=x.ty.replace("const ", "")), {x.text()}
+    for x in cond.find("DeclRefExpr"):
+        if x.d.get("dk") == "Var" and not x.d.get("g") and x.ty in ("int", "unsigned int", "unsigned char"):
+            defs = [d for d, _ in local_defs(F, x.d["did"]) if d is not None]
+            if len(defs) == 1:
+                src = [y for y in defs[0].walk() if y.k == "ArraySubscriptExpr" and y.ty.replace("const ", "") == "char"]
+                if src:
+                    conv = defs[0].strip().ty if defs[0].strip().k == "CStyleCastExpr" else "int"
+                    sy = Sym(did=x.d["did"], ty=x.ty)
+                    sy.conv = conv
+                    return sy, {x.d["name"], src[0].text()}
+    return None, set()
+
+
 def _actions(body, chartext, depth=0):
+    texts = chartext if isinstance(chartext, (set, frozenset)) else ({chartext} if chartext else set())
     """summarise what a branch does to the current sequence record (private helpers the branch calls are looked into, the
     character argument followed into the parameter that receives it)"""
     acts = set()
@@ -64,7 +86,7 @@ def _actions(body, chartext, depth=0):
             if H is not None and H.body is not None and H.static:
                 ct = None
                 for i, a in enumerate(n.args):
-                    if a.strip(casts=True).text() == chartext and i < len(H.params):
+                    if a.strip(casts=True).text() in texts and i < len(H.params):
                         ct = H.params[i]["name"]
                 if ct is not None:      # a per-character helper: it acts on the character this branch tested
                     acts |= _actions(H.body, ct, depth + 1)
@@ -76,7 +98,7 @@ def _actions(body, chartext, depth=0):
                 if b.k == "MemberExpr" and b.d.get("rec") == "msa_seq":
                     idx = l.kids[1].strip(casts=True)
                     idx_t = idx.d.get("field") if idx.k == "MemberExpr" else idx.text()
-                    src = "char" if n.kids[1].strip(casts=True).text() == chartext else "other:" + n.kids[1].text()
+                    src = "char" if n.kids[1].strip(casts=True).text() in texts else "other:" + n.kids[1].text()
                     acts.add("%s[%s]=%s" % (b.d["field"], idx_t, src))
         elif n.k == "UnaryOperator" and n.d["op"] in ("++", "--"):
             t = n.kids[0].strip()
@@ -97,42 +119,44 @@ def _actions(body, chartext, depth=0):
     return acts
 
 
-def reader_signature(prog, F):
+def find_chains(prog, F):
+    """the character-classification chain(s) of a reader: innermost if / else-if chains inside a loop whose branches append a
+    residue or count a gap; looked for in the reader and in the private helpers it calls.
+    -> [(function, if-node, links, final else, symbol, spellings of the character, enclosing loop)]"""
     _PROG[0] = prog
-    chains = []
-    for n in F.body.find("IfStmt"):
-        if n.role == "else":
-            continue
-        links, final = if_chain(n)
-        if any(_ctype_of(c) & {"isalpha", "ispunct", "isdigit", "isalnum", "isupper", "islower"} for c, _ in links) or \
-                any(x.ty.replace("const ", "") == "char" and x.k == "ArraySubscriptExpr" for x in links[0][0].walk()):
-            loops = [a for a in n.ancestors() if a.k in ("ForStmt", "WhileStmt")]
-            if loops:
-                chains.append((n, links, final, loops[0]))
-    # keep chains that touch the sequence record
+    fns = [F] + [prog.functions[c.callee] for c in F.body.calls() if c.callee in prog.functions and prog.functions[c.callee].static
+                 and prog.functions[c.callee].file == F.file and prog.functions[c.callee] is not F]
+    for G in fns:
+        kept = []
+        for n in G.body.find("IfStmt"):
+            if n.role == "else":
+                continue
+            loops = [x for x in n.ancestors() if x.k in ("ForStmt", "WhileStmt")]
+            if not loops:
+                continue
+            links, final = if_chain(n)
+            sym, texts = _char_of(G, links[0][0])
+            if sym is None:
+                continue
+            acts = [_actions(th, texts) for c, th in links] + ([_actions(final, texts)] if final is not None else [])
+            if any("len++" in x or "gaps[len]++" in x for x in acts):
+                kept.append((G, n, links, final, sym, texts, loops[0]))
+        kept = [c for c in kept if not any(o[1] is not c[1] and o[1].within(c[1]) for o in kept)]
+        if kept:
+            return kept
+    return []
+
+
+def reader_signature(prog, F):
     sig = []
     where = None
-    kept = []
-    for n, links, final, loop in chains:
-        ct = _ctype_arg(links[0][0])
-        acts = [_actions(th, ct) for c, th in links] + ([_actions(final, ct)] if final is not None else [])
-        if any("len++" in a or "gaps[len]++" in a for a in acts) or \
-                (any(acts) and any(_ctype_of(c) & {"isalpha", "ispunct", "isdigit", "isalnum", "isupper", "islower"} for c, _ in links)):
-            kept.append((n, links, final, loop))
-    # an enclosing chain (if (line[0] == '>') ... else { the character loop }) is not the classification itself
-    chains = [c for c in kept if not any(o[0] is not c[0] and o[0].within(c[0]) for o in kept)]
-    for n, links, final, loop in chains:
-        chartext = _ctype_arg(links[0][0])
+    for G, n, links, final, sym, texts, loop in find_chains(prog, F):
         entry = []
         for c, then in links:
-            entry.append((tuple(sorted(_ctype_of(c))), tuple(sorted(_actions(then, chartext))), _ctype_arg(c) == chartext))
+            same = any(x.text() in texts for x in c.walk() if x.k in ("ArraySubscriptExpr", "DeclRefExpr"))
+            entry.append((tuple(sorted(_ctype_of(c))), tuple(sorted(_actions(then, texts))), same))
         if final is not None:
-            entry.append((("else",), tuple(sorted(_actions(final, chartext))), True))
-        if not any(a for _, a, _ in entry):
-            continue
-        if not any(_ctype_of(c) & {"isalpha", "ispunct", "isdigit", "isalnum", "isupper", "islower"} for c, _ in links) and \
-                not any("len++" in a or "gaps[len]++" in a for _, a, _ in entry):
-            continue                    # an if-chain on a character that is not the residue / gap classification (e.g. '>' lines)
+            entry.append((("else",), tuple(sorted(_actions(final, texts))), True))
         # histogram statement in the same loop body, on the same character
         hist = []
         for u in loop.find("UnaryOperator"):
@@ -141,7 +165,7 @@ def reader_signature(prog, F):
                 if t.k == "ArraySubscriptExpr" and t.kids[0].strip(casts=True).k == "MemberExpr" and \
                         t.kids[0].strip(casts=True).d.get("field") == "letter_freq":
                     # counted for every character of the line: on the same character, and not inside one branch of the chain
-                    hist.append(t.kids[1].strip(casts=True).text() == chartext and not u.within(n))
+                    hist.append(t.kids[1].strip(casts=True).text() in texts and not u.within(n))
         sig.append((tuple(entry), tuple(hist)))
         where = n
     return sig, where
@@ -150,40 +174,28 @@ def reader_signature(prog, F):
 def reader_byte_classes(prog, F):
     """for the character-classification chain of a reader: {byte 0..127: tuple of actions of the branch that byte takes},
     by exact evaluation of the chain's conditions for every byte value (ctype predicates with C-locale semantics, explicit
-    ranges, negations, && / || alike); (None, why) if the chain or its character is not understood"""
-    from ..bytedom import Sym, ev
-    _PROG[0] = prog
-    fns = [F] + [prog.functions[c.callee] for c in F.body.calls() if c.callee in prog.functions and prog.functions[c.callee].static
-                 and prog.functions[c.callee].file == F.file]
-    best = None
-    for G in fns:
-        ifs = [n for n in G.body.find("IfStmt") if n.role != "else" and any(a.k in ("ForStmt", "WhileStmt") for a in n.ancestors())]
-        # innermost chains first: the chain that tests the character directly, not an enclosing `if (line_len > 1)`
-        for n in sorted(ifs, key=lambda x: -len(list(x.ancestors()))):
-            links, final = if_chain(n)
-            cands = [x for x in links[0][0].find("ArraySubscriptExpr") if x.ty.replace("const ", "") == "char"]
-            cands += [x for x in links[0][0].find("DeclRefExpr") if x.ty.replace("const ", "") == "char"]
-            if not cands:
-                continue
-            chartext = cands[0].text()
-            acts = [tuple(sorted(_actions(th, chartext))) for c, th in links]
-            felse = tuple(sorted(_actions(final, chartext))) if final is not None else ()
-            if not any("len++" in a or "gaps[len]++" in a for a in acts + [felse]):
-                continue                # not the residue / gap chain (e.g. the name parser)
-            sym = Sym(text=chartext, ty="char")
-            out = {}
-            for b in range(128):
-                cls = felse
-                for (c, th), a in zip(links, acts):
-                    v = ev(c, sym, b)
-                    if v is None:
-                        return None, "condition %s of %s cannot be evaluated for byte %d" % (c.text()[:40], G.name, b)
-                    if v:
-                        cls = a
-                        break
-                out[b] = cls
-            return out, n
-    return None, "no classification chain found in %s" % F.name
+    ranges, lookups in constant tables, negations, && / || alike); (None, why) if the chain is not understood"""
+    from .. import bytedom
+    from ..bytedom import ev
+    bytedom.PROG[0] = prog
+    chains = find_chains(prog, F)
+    if len(chains) != 1:
+        return None, "expected one classification chain in %s, found %d" % (F.name, len(chains))
+    G, n, links, final, sym, texts, loop = chains[0]
+    acts = [tuple(sorted(_actions(th, texts))) for c, th in links]
+    felse = tuple(sorted(_actions(final, texts))) if final is not None else ()
+    out = {}
+    for b in range(128):
+        cls = felse
+        for (c, th), a in zip(links, acts):
+            v = ev(c, sym, b)
+            if v is None:
+                return None, "condition %s of %s cannot be evaluated for byte %d" % (c.text()[:40], G.name, b)
+            if v:
+                cls = a
+                break
+        out[b] = cls
+    return out, n
 
 
 def r04i(ck, prog, rule="R04i", case_only=False):
